@@ -19,6 +19,7 @@ NOISE = ["nz0", "nz1"]
 def default_params(tier):
     p = progmod.default_params(tier, collide=True, forbid=["provide", "inject_default", "negative"])
     p["budget_mult"] = 5000
+    p["loop_ladder"] = 8
     p["py_entry"] = 8
     p["max_prefix"] = 2
     p["noise_reads"] = True
